@@ -213,6 +213,18 @@ def _advance(stmts, info, var, axis):
     raise Unsupported(f"{info.where}: no offset is advanced by {var}.shape[{axis}]")
 
 
+def _no_jumps(loop, where):
+    """the block loops must run every statement of their body on every iteration: a `continue`/`break`/`return`
+    (or a conditional around the offset bookkeeping) would make the offsets and the chunks drift apart"""
+    for sub in ast.walk(loop):
+        if isinstance(sub, (ast.Continue, ast.Break, ast.Return)):
+            raise Unsupported(f"{where}: `{type(sub).__name__.lower()}` inside a block loop")
+        if isinstance(sub, ast.If):
+            for inner in ast.walk(sub):
+                if isinstance(inner, ast.AugAssign) and isinstance(inner.target, ast.Name) and inner.target.id.endswith("_begin"):
+                    raise Unsupported(f"{where}: offset {inner.target.id} advanced conditionally")
+
+
 def extract_one(rel, cls_name, meth_name, size_text):
     where = f"{rel}:{cls_name}.{meth_name}"
     fn = find_method(find_class(parse(rel), cls_name), meth_name)
@@ -222,6 +234,7 @@ def extract_one(rel, cls_name, meth_name, size_text):
     if len(outer) != 1:
         raise Unsupported(f"{where}: expected exactly one outer block loop, found {len(outer)}")
     outer = outer[0]
+    _no_jumps(outer, where)
     yvar, ychunks = _loop_var_and_iter(outer, info)
     _scan_simple_assigns(outer.body, info)
     inner = list(_loops(outer.body))
